@@ -425,3 +425,20 @@ Proof.
   - exact (proj1 (site_safe s n Hs Hl Hk)).
   - intros b Hb E. exact (site_injective s n b Hs Hl Hb E).
 Qed.
+
+(* ------------------------------------------------------------------ name-keyed lookups use the plain name *)
+
+Lemma lookups_plain_table : forallb (fun l => negb (l_escaped l)) LOOKUPS = true.
+Proof. vm_compute; reflexivity. Qed.
+
+Lemma lookups_hit : forall l n, In l LOOKUPS -> lookup_hits l n = true.
+Proof.
+  intros l n Hin. pose proof lookups_plain_table as F. rewrite forallb_forall in F.
+  pose proof (F l Hin) as H. apply negb_true_iff in H.
+  unfold lookup_hits, lookup_key. rewrite H. apply name_eqb_refl.
+Qed.
+
+Lemma escaped_lookup_hits_off_keywords : forall l n, gen_is_rust_keyword n = false -> lookup_hits l n = true.
+Proof.
+  intros l n H. unfold lookup_hits, lookup_key. destruct (l_escaped l); [rewrite (escape_off_table n H)|]; apply name_eqb_refl.
+Qed.
